@@ -10,6 +10,7 @@ import (
 	cmtproto "github.com/cometbft/cometbft/proto/tendermint/types"
 	cmttypes "github.com/cometbft/cometbft/types"
 	sdk "github.com/cosmos/cosmos-sdk/types"
+	"github.com/ethereum/go-ethereum/core/types/goattypes"
 	lockingtypes "github.com/goatnetwork/goat/x/locking/types"
 
 	"verif/harness/vc"
@@ -338,13 +339,38 @@ func c14History(c *vc.Ctx, idx int) {
 	defer h.close()
 	mon := newC14Mon(h)
 	h.crashFn = func(cr *world.ErrCrash) { c.Inconclusive("FinalizeBlock failed (reported under C13): %v", cr) }
+	directed := idx%4 == 3
+	if directed {
+		// directed scenario: validator 1 misses the maximum in a row, is jailed for 60 s = 20 blocks, and gets a
+		// lock request in every block from 3 before to 3 after the end of the jail (one lands exactly at it)
+		h.cfg.W = lockWeights{Absent: 0, Lock: 0, Claim: 5}
+		h.cfg.JumpTime = false
+		h.absentRun[1] = int(h.post.Locking.Params.MaxMissedPerWindow) + 1
+	}
 	for b := 0; b < cfg.Blocks && !h.failed; b++ {
+		if directed {
+			if j, ok := mon.jailed[1]; ok {
+				next := h.ch.Height + 1
+				if next >= j+17 && next <= j+23 {
+					h.extra = func(o *blockOps) {
+						lr := &goattypes.LockRequest{Validator: h.vals[1].Addr, Token: tokBTC, Amount: pow10(17)}
+						o.Reqs.Locking.Locks = append(o.Reqs.Locking.Locks, lr)
+						o.locks = append(o.locks, lr)
+						o.Desc = append(o.Desc, "lock v1 around the end of its jail")
+					}
+				}
+				if next == j+30 { // a second offence after the release
+					h.absentRun[1] = int(h.post.Locking.Params.MaxMissedPerWindow) + 1
+				}
+			}
+		}
 		if !h.step() {
 			return
 		}
+		h.extra = nil
 		mon.afterBlock()
 	}
-	c.Sample(map[string]any{"validators": nv, "window": h.post.Locking.Params.SignedBlocksWindow, "max_missed": h.post.Locking.Params.MaxMissedPerWindow, "blocks": h.ch.Height,
+	c.Sample(map[string]any{"validators": nv, "directed_jail_scenario": directed, "window": h.post.Locking.Params.SignedBlocksWindow, "max_missed": h.post.Locking.Params.MaxMissedPerWindow, "blocks": h.ch.Height,
 		"jailed": fmt.Sprint(mon.jailed), "tombstoned": fmt.Sprint(mon.tombstoned), "slashed": h.post.Locking.Slashed.String(), "last_ops": lastN(h.opsLog, 3)})
 }
 
